@@ -52,8 +52,41 @@ def run(chk):
         loops = [n for n in ast.walk(rec[0]) if isinstance(n, ast.For)]
         chk.check(len(loops) == 1 and src(loops[0].iter) == "var" and any(isinstance(c, ast.Call) and dotted(c.func) == "export_variable" and src(c.args[0]) == f"var[{src(loops[0].target)}]"
                                                                           for c in ast.walk(loops[0])), "R1", f"{E}:export_record | every member exported", ex.loc(rec[0]), "")
-    arr = [n for n in ast.walk(ex.node) if isinstance(n, ast.Assign) and src(n.targets[0]) == "export_array"]
-    chk.check(len(arr) == 1 and src(arr[0].value) == "export_record", "R1", f"{E}:export_eds | arrays exported like records", ex.loc(), "")
+    # which writer each kind of object reaches: the if-chain over isinstance(<object>, <kind>) in export_object, or written in place in
+    # add_list's loop; a local alias (`export_array = export_record`) is followed to the function it names
+    aliases = {src(n.targets[0]): src(n.value) for n in ast.walk(ex.node) if isinstance(n, ast.Assign) and len(n.targets) == 1 and isinstance(n.targets[0], ast.Name)
+               and isinstance(n.value, ast.Name) and n.value.id in ("export_record", "export_variable")}
+
+    def _dispatch(stmts, subject):
+        out = {}
+        for i in stmts:
+            while isinstance(i, ast.If):
+                t = i.test
+                if not (isinstance(t, ast.Call) and dotted(t.func) == "isinstance" and len(t.args) == 2 and src(t.args[0]) == subject and len(i.body) == 1):
+                    break
+                b = i.body[0]
+                call = b.value if isinstance(b, (ast.Return, ast.Expr)) and isinstance(b.value, ast.Call) else None
+                if call is None or not call.args or src(call.args[0]) != subject:
+                    break
+                for k in (t.args[1].elts if isinstance(t.args[1], ast.Tuple) else [t.args[1]]):
+                    out.setdefault(src(k), aliases.get(dotted(call.func), dotted(call.func)))
+                i = i.orelse[0] if len(i.orelse) == 1 else None
+        return out
+    kinds = None
+    eo_ = [n for n in ast.walk(ex.node) if isinstance(n, ast.FunctionDef) and n.name == "export_object"]
+    if eo_ and eo_[0].args.args:
+        kinds = _dispatch(eo_[0].body, eo_[0].args.args[0].arg)
+    else:
+        for a_ in [n for n in ast.walk(ex.node) if isinstance(n, ast.FunctionDef) and n.name == "add_list"]:
+            for lp in [n for n in ast.walk(a_) if isinstance(n, ast.For) and isinstance(n.target, ast.Name)]:
+                k_ = _dispatch(lp.body, f"od[{lp.target.id}]")
+                if k_:
+                    kinds = k_
+    if kinds is None:
+        chk.unk("R1", f"{E}:export_eds | arrays exported like records", ex.loc(), "no dispatch over the kind of object found in export_object or add_list")
+    else:
+        chk.check(kinds.get("objectdictionary.ODArray") == "export_record" == kinds.get("objectdictionary.ODRecord"), "R1", f"{E}:export_eds | arrays exported like records", ex.loc(),
+                  f"writers per kind: {kinds}")
     evs = [n for n in ast.walk(ex.node) if isinstance(n, ast.FunctionDef) and n.name == "export_variable"]
     if not evs:
         from ..loader import AnalysisError
@@ -214,15 +247,40 @@ def run(chk):
             c_ = e.generators[0].ifs[0]
             if isinstance(c_, ast.Call) and isinstance(c_.func, ast.Name) and [src(a) for a in c_.args] == [e.generators[0].target.id]:
                 return c_.func.id
+        if isinstance(e, (ast.ListComp, ast.GeneratorExp)) and len(e.generators) == 1 and src(e.generators[0].iter) == "od" and e.generators[0].ifs \
+                and isinstance(e.generators[0].target, ast.Name) and src(e.elt) == e.generators[0].target.id:
+            # the selecting condition written in place: an anonymous predicate over the comprehension variable
+            ifs = e.generators[0].ifs
+            cond = ifs[0] if len(ifs) == 1 else ast.BoolOp(op=ast.And(), values=list(ifs))
+            fn = ast.FunctionDef(name=f"<condition at line {getattr(e, 'lineno', 0)}>", args=ast.arguments(posonlyargs=[], args=[ast.arg(arg=e.generators[0].target.id)], kwonlyargs=[], kw_defaults=[], defaults=[]),
+                                 body=[ast.Return(value=cond)], decorator_list=[])
+            ast.fix_missing_locations(fn)
+            anon[fn.name] = fn
+            return fn.name
         return None
+    anon = {}
     lists = {}
     for c_ in [c for c in ast.walk(ex.node) if isinstance(c, ast.Call) and dotted(c.func) == "add_list" and len(c.args) == 2]:
         lists[src(c_.args[1])] = _pred_of(c_.args[1])
+    preds.update(anon)
     chk.check(len(lists) == 3 and all(v in preds for v in lists.values()), "R5", f"{E}:export_eds | three object lists filtered from od", ex.loc(), f"{lists}")
     used = [preds[p] for p in lists.values() if p in preds]
+    # constants of export_eds the conditions may name (e.g. a set of mandatory indices), folded from their single definition
+    consts = {}
+    for st in ex.node.body:
+        if isinstance(st, ast.Assign) and len(st.targets) == 1 and isinstance(st.targets[0], ast.Name):
+            nm = st.targets[0].id
+            if sum(1 for n in ast.walk(ex.node) if isinstance(n, ast.Name) and n.id == nm and isinstance(n.ctx, ast.Store)) == 1:
+                try:
+                    consts[nm] = folder.fold(st.value, sc)
+                except Exception:
+                    pass
     if len(used) == 3:
         lits = set()
         for p in preds.values():
+            for c in ast.walk(p):
+                if isinstance(c, ast.Name) and isinstance(consts.get(c.id), (set, frozenset, list, tuple)):
+                    lits |= {y + d for y in consts[c.id] if isinstance(y, int) for d in (-1, 0, 1)}
             for c in ast.walk(p):
                 if isinstance(c, ast.Constant) and isinstance(c.value, int) and not isinstance(c.value, bool):
                     lits |= {c.value - 1, c.value, c.value + 1}
@@ -231,7 +289,7 @@ def run(chk):
         for x in points:
             vals = []
             for p in used:
-                r = partial_eval(folder, p, mod, None, {p.args.args[0].arg: x}, preds)
+                r = partial_eval(folder, p, mod, None, {**consts, p.args.args[0].arg: x}, preds)
                 if r[0] != "return":
                     bad = ("unknown", f"{p.name}({x:#x}): {r}")
                     break
@@ -252,6 +310,10 @@ def run(chk):
         a = al[0]
         loops = [n for n in ast.walk(a) if isinstance(n, ast.For)]
         ok = any(src(lp.iter) == "list" and any(isinstance(c, ast.Call) and dotted(c.func) == "export_object" and src(c.args[0]) == f"od[{src(lp.target)}]" for c in ast.walk(lp)) for lp in loops)
+        if not ok and not eo_:
+            # the dispatch written in place: every kind of object must reach its writer from the loop over the list
+            ok = any(src(lp.iter) == "list" and isinstance(lp.target, ast.Name) and _dispatch(lp.body, f"od[{lp.target.id}]") ==
+                     {"objectdictionary.ODVariable": "export_variable", "objectdictionary.ODRecord": "export_record", "objectdictionary.ODArray": "export_record"} for lp in loops)
         chk.check(ok, "R8", f"{E}:export_eds.add_list | every listed object is exported", ex.loc(a), "")
         cnt = [c for c in ast.walk(a) if isinstance(c, ast.Call) and dotted(c.func) == "eds.set" and folder.try_fold(c.args[1], sc, None) == "SupportedObjects"]
         chk.check(len(cnt) == 1 and src(cnt[0].args[2]) == "len(list)", "R8", f"{E}:export_eds.add_list | SupportedObjects", ex.loc(a), "")
@@ -260,7 +322,8 @@ def run(chk):
     eo = [n for n in ast.walk(ex.node) if isinstance(n, ast.FunctionDef) and n.name == "export_object"]
     if eo:
         kinds = {src(i.test.args[1]): dotted(i.body[0].value.func) for i in eo[0].body if isinstance(i, ast.If) and isinstance(i.test, ast.Call) and isinstance(i.body[0], ast.Return)}
-        chk.check(kinds == {"objectdictionary.ODVariable": "export_variable", "objectdictionary.ODRecord": "export_record", "objectdictionary.ODArray": "export_array"}, "R8",
+        kinds = {k: aliases.get(v, v) for k, v in kinds.items()}
+        chk.check(kinds == {"objectdictionary.ODVariable": "export_variable", "objectdictionary.ODRecord": "export_record", "objectdictionary.ODArray": "export_record"}, "R8",
                   f"{E}:export_eds.export_object | dispatch on kind", ex.loc(eo[0]), f"{kinds}")
 
     # ------------------------------------------------------------------ R6 destination independence
